@@ -47,7 +47,11 @@
 #endif
 #define KEYS 32
 #ifndef BULKN
+#ifdef BULKCNT
+#define BULKN BULKCNT
+#else
 #define BULKN (LEAF + 2)   // bulk_load range length 0..BULKN (one full leaf plus a partial one)
+#endif
 #endif
 enum { MULTI = (CONT == 1 || CONT == 3), ISMAP = (CONT >= 2) };
 
@@ -261,7 +265,13 @@ HARNESS(h_btree)
         case 1: { Tree* c = new Tree(); c->insert(MKVAL(key, val)); *c = *tp; CHECK(*c == *tp, "assignment makes the trees equal"); compare_all(*c, m, key); delete c; } break;
         case 2: { Tree* c = new Tree(); c->insert(MKVAL(key, val)); c->swap(*tp); CHECK(tp->size() == 1 && c->size() == m.n, "swap exchanges the contents"); tp->swap(*c); delete c; } break;
         case 3: tp->clear(); m.n = 0; break;
-        case 4: { tp->clear(); m.n = 0; unsigned cnt = nondet_below(BULKN + 1); Tree::value_type a[BULKN + 1]; uint8_t last = 0;
+        case 4: { tp->clear(); m.n = 0; 
+#ifdef BULKCNT
+                  unsigned cnt = BULKCNT;          // range length enumerated by the spec (a symbolic length makes the number of allocated nodes symbolic: measured memory-out)
+#else
+                  unsigned cnt = nondet_below(BULKN + 1);
+#endif
+                  Tree::value_type a[BULKN + 1]; uint8_t last = 0;
                   for (unsigned i = 0; i < BULKN; ++i) if (i < cnt) { uint8_t d = (uint8_t)nondet_below(3); if (!MULTI && i > 0) d = (uint8_t)(d + 1);
 #ifdef CMP_GREATER
                       uint8_t kk = (uint8_t)(i == 0 ? 200 - d : last - d);
